@@ -132,6 +132,28 @@ fn check_rand(c: &RandCase, st: &mut Stats) -> Result<(), String> {
     Ok(())
 }
 
+// ---- part 2b: one argument closed at a time ---------------------------------------------------------
+
+/// i < 65536: every total length; < 131072: every protocol type; then every PDU length 0..=4200 x label
+/// length {0, 3, 6} (the other arguments derived from the index)
+fn arg_sweep_case(i: u64) -> RandCase {
+    let labels: [Vec<u8>; 3] = [vec![], vec![0x00, 0x80, 0xFF], vec![0xFF, 0x00, 0x5A, 0xA5, 0x01, 0x80]];
+    if i < 65536 {
+        RandCase { pdu: Pdu { len: (i % 9) as u32, seed: 3 + i as u32 }, total_len: i as u16, ptype: 0x0800, label: labels[(i % 3) as usize].clone() }
+    } else if i < 131072 {
+        let j = i - 65536;
+        RandCase { pdu: Pdu { len: (j % 9) as u32, seed: 3 + j as u32 }, total_len: 100, ptype: j as u16, label: labels[(j % 3) as usize].clone() }
+    } else {
+        let j = i - 131072;
+        let (len, l) = (j % 4201, j / 4201);
+        RandCase { pdu: Pdu { len: len as u32, seed: 3 + len as u32 }, total_len: (len as u16).wrapping_mul(31), ptype: (len as u16).wrapping_mul(17), label: labels[l as usize].clone() }
+    }
+}
+
+fn check_arg_sweep(i: u64, st: &mut Stats) -> Result<(), String> {
+    check_rand(&arg_sweep_case(i), st)
+}
+
 // ---- part 3: end to end ---------------------------------------------------------------------
 
 #[derive(Clone)]
@@ -349,6 +371,15 @@ pub fn property() -> Property {
                 check: check_sweep,
                 describe: desc_sweep,
                 required_classes: &["sweep"],
+            }),
+            Box::new(EnumPart {
+                name: "every-total-length-protocol-type-pdu-length",
+                rule: "every 16-bit total length, every 16-bit protocol type (short PDUs, label lengths 0/3/6 in turn), every PDU length 0..=4200 x label length 0/3/6: exhaustive, vs the reference",
+                size: |_| 131072 + 4201 * 3,
+                exhaustive: |_| true,
+                check: check_arg_sweep,
+                describe: |_t, i| serde_json::to_value(arg_sweep_case(i)).unwrap_or(Value::Null),
+                required_classes: &["label0", "label3", "label6", "pdu>4095", "pdu-empty"],
             }),
             Box::new(GenPart {
                 name: "random-inputs",
